@@ -15,7 +15,7 @@ from lsim import minimise
 
 PROPERTY = 'C14'
 INF = 1000000000
-NAME_POOL = ['a', 'b', 'c', 'd', 'e', 'f', 'g', 'h', 'A', 'B', 'C', 'Z', 'x1', 'x2',
+NAME_POOL = ['\u2913a', '\u2913P_ifr1', 'a b', 'a', 'b', 'c', 'd', 'e', 'f', 'g', 'h', 'A', 'B', 'C', 'Z', 'x1', 'x2',
              'x10', 'P_ifr1', 'P_ifr2', 'Q_ifr1', 'Q_ifr2', 'm', 'n', 'k', 'T', 'U',
              'V', 'W', 'q:r', 'zz', 'y', 'Y', 'aa', 'ab', 'ba', '0', '1', '_']
 
@@ -121,8 +121,14 @@ def scenarios(r, plan, tier):
   sigs = [(k, it) for k, it in plan['iterations'] if it['stop_signal']]
   has_inf = any(it['repetitions'] >= INF for _, it in plan['iterations'])
   size = plan_size(plan, 3)
-  base = {'fs0': {}, 'script': [], 'error_at': None, 'durations': [0.001],
-          'display_mode': 'silent'}
+  # the display mode, the clock behaviour and the one-line switch are drawn per plan and apply to
+  # EVERY scenario of that plan (enumerated signal instants and error positions included), so that
+  # nothing in the executor can depend on them unnoticed
+  mode = r.choice(['silent', 'silent', 'silent', 'terminal', 'colab-text'])
+  durs = r.choice([[0.001], [0.001], [0.0], [0.3, 0.6, 5.0], [1e-6, 3600.0], [0.2, -1.0, 0.7],
+                   [86400.0 * 3], [0.4999, 0.5001], [0.6]])
+  base = {'fs0': {}, 'script': [], 'error_at': None, 'durations': durs,
+          'display_mode': mode, 'oneline': mode == 'terminal' and r.random() < 0.3}
 
   def with_inf_guard(sc, horizon):
     # every INF group must be stopped: raise its signal (non-empty) for good.
@@ -479,7 +485,7 @@ def shrink(case):
 
 def plan(tier):
   if tier == 'quick':
-    return {'batches': 48, 'timeout': 1500, 'a_plans': 400, 'b_programs': 4, 'p_plans': 600, 'wall_budget_s': 300}
+    return {'batches': 48, 'timeout': 1500, 'a_plans': 300, 'b_programs': 4, 'p_plans': 600, 'wall_budget_s': 300}
   return {'batches': 480, 'timeout': 2400, 'a_plans': 4000, 'b_programs': 60, 'p_plans': 6000, 'wall_budget_s': 1500}
 
 
